@@ -555,6 +555,9 @@ class Registry:
             return None
         if qualname == I.current_target:
             return None
+        cur = self.contracts.get(I.current_target)
+        if cur is not None and getattr(cur, "inline_callees", False):
+            return None  # a lemma over the bodies (the callees are proved separately as well)
         return con
 
     def external_for(self, qualname):
